@@ -433,7 +433,7 @@ func (p *remoteProp) step(ctx context.Context, rc *RunCtx, rp *RemoteParams, g *
 		var rc2 io.ReadCloser
 		rc2, err = repo.Fetch(ctx, n.Desc)
 		if err == nil {
-			seekViolation = p.readSeek(rc2, n, op, present, func() string {
+			seekViolation = p.readSeek(rc2, n, op, present, &err, func() string {
 				if f, _ := after(); f && rp.Fault != nil {
 					return rp.Fault.Kind
 				}
@@ -758,7 +758,7 @@ func (p *remoteProp) step(ctx context.Context, rc *RunCtx, rp *RemoteParams, g *
 }
 
 // readSeek applies a Read/Seek sequence and compares with the stored bytes.
-func (p *remoteProp) readSeek(rc io.ReadCloser, n *Node, op RemoteOp, present bool, faultKind func() string) *Verdict {
+func (p *remoteProp) readSeek(rc io.ReadCloser, n *Node, op RemoteOp, present bool, refused *error, faultKind func() string) *Verdict {
 	failing := func() bool { k := faultKind(); return k == "status-500" || k == "transport" }
 	tampering := func() bool { k := faultKind(); return k != "" && k != "status-500" && k != "transport" }
 	data := n.Data
@@ -786,8 +786,9 @@ func (p *remoteProp) readSeek(rc io.ReadCloser, n *Node, op RemoteOp, present bo
 				continue
 			}
 			if err != nil {
-				if failing() {
-					continue // the Range exchange failed: the reader stays where it was
+				if failing() || tampering() {
+					*refused = err // the Range exchange failed or was refused as inconsistent: the reader stays where it was
+					continue
 				}
 				return violation("seek-wrong", "", "%s step %d: Seek(%d,%d) failed: %v", op, si, st.Off, st.Whence, err)
 			}
